@@ -1,8 +1,12 @@
 import Lean.Data.Json
 import Ktm.CoreProps
+import Ktm.Persist
 import Ktm.Metrics
-/-! Prototype of the line-protocol driver for the `oracle-core` suite: the implementation's own
-    `populate_space` answer is the external choice, the model does all the bookkeeping. -/
+import Ktm.Ranking
+/-! Line-protocol driver for the `oracle` suite (C01–C03, C04-ranking, C07, C08): the implementation's
+    own `populate_space` answer is the external choice, the model (`Core.create / update / endT`,
+    `Core.reload`, `Core.writeTrial / writeOracle`, `Metrics.*`, `Ranking.bestTrials`) does all the
+    bookkeeping, scoring, persistence and ranking. -/
 open Lean Core
 
 namespace Driver
@@ -10,21 +14,29 @@ namespace Driver
 abbrev V := String                       -- canonical text of the values dict
 abbrev A := Option (Pop V)               -- the populate answer for the next create
 
-def alg (minimize : Bool) : Alg V A :=
+def alg : Alg V A :=
   { populate := fun o _ => (none, o.alg.getD .stop)
     onEnd := fun a _ => a
-    scoreOf := fun _ => none }           -- not used: scores are computed by `scoreTrial` below
+    scoreOf := fun _ => none }           -- replaced per call: scores come from `Metrics.bestValue`
+
+/-- what the driver keeps beside the core oracle: the real (rational) observations and scores -/
+structure Side where
+  obs : List (Nat × List Metrics.Obs)     -- per trial id: objective observations of the current run(s)
+  score : List (Nat × Metrics.FV)         -- per trial id: score set by the last COMPLETED end
 
 structure St where
   o : Oracle V A
   minimize : Bool
-  obs : List (Nat × List Metrics.Obs)     -- per trial id: objective observations
+  side : Side
+  disk : Disk V A
+  fileSide : List (Nat × (List Metrics.Obs × Option Metrics.FV))   -- what the trial files hold beside the core part
+  budget : Option Nat                     -- number of further file writes that reach the disk (crash injection)
   tuners : List String                    -- tuner names, index = model tuner id
   width : Nat                             -- zero padding of ids
 
 def pad (w n : Nat) : String :=
   let s := toString n
-  String.mk (List.replicate (w - s.length) '0') ++ s
+  String.ofList (List.replicate (w - s.length) '0') ++ s
 
 def tunerId (st : St) (name : String) : St × Nat :=
   match st.tuners.idxOf? name with
@@ -36,31 +48,67 @@ def statusStr : Status → String
 
 def ratStr (q : Rat) : String := s!"{q.num}/{q.den}"
 
+def scStr : Sc → String
+  | .ninf => "-inf" | .pinf => "inf" | .fin q => ratStr q
+
+def fvStr : Metrics.FV → String
+  | .nan => "nan" | .val s => scStr s
+
+/-- a float on the wire: exact ratio `[p, q]`, or "inf" / "-inf" / "nan" -/
 def fvOfJson (j : Json) : Metrics.FV :=
   match j with
-  | .str "nan" => .nan
-  | .arr #[.num n, .num d] => .fin (Rat.divInt n.mantissa d.mantissa)   -- exact ratio [p, q]
+  | .arr #[.num n, .num d] => .val (.fin (Rat.divInt n.mantissa d.mantissa))
+  | .str "inf" => .val .pinf
+  | .str "-inf" => .val .ninf
   | _ => .nan
 
-def getObs (st : St) (id : Nat) : List Metrics.Obs := ((st.obs.find? (·.1 == id)).map (·.2)).getD []
+def assocGet {β} (l : List (Nat × β)) (id : Nat) : Option β := (l.find? (·.1 == id)).map (·.2)
+def assocSet {β} (l : List (Nat × β)) (id : Nat) (b : β) : List (Nat × β) := (l.filter (·.1 != id)) ++ [(id, b)]
+
+def getObs (st : St) (id : Nat) : List Metrics.Obs := (assocGet st.side.obs id).getD []
 def setObs (st : St) (id : Nat) (l : List Metrics.Obs) : St :=
-  { st with obs := (st.obs.filter (·.1 != id)) ++ [(id, l)] }
+  { st with side := { st.side with obs := assocSet st.side.obs id l } }
+def getScore (st : St) (id : Nat) : Option Metrics.FV := assocGet st.side.score id
 
 def stateStr (st : St) : String :=
   let o := st.o
   let sts := String.intercalate "," ((List.range o.trials.length).map (fun i =>
     match o.trials[i]? with
-    | some t => s!"{pad st.width i}:{statusStr t.status}:{match t.score with | some _ => "s" | none => "-"}"
+    | some t => s!"{pad st.width i}:{statusStr t.status}:{match t.status, getScore st i with | .completed, some v => fvStr v | _, _ => "-"}:{t.runs}"
     | none => "?"))
   let ong := String.intercalate "," ((o.ongoing.map (fun p => s!"{st.tuners.getD p.1 "?"}={pad st.width p.2}")).toArray.qsort (· < ·)).toList
   let rq := String.intercalate "," (o.retryQ.map (pad st.width))
   let eo := String.intercalate "," (o.endOrder.map (pad st.width))
   s!"trials[{sts}] ongoing[{ong}] retry[{rq}] end[{eo}]"
 
-def handle (st : Option St) (line : String) : Option St × String :=
-  match Json.parse line with
-  | .error e => (st, s!"bad-json {e}")
-  | .ok j =>
+/-- a file write reaches the disk only while the crash budget lasts -/
+def spend (st : St) : St × Bool :=
+  match st.budget with
+  | none => (st, true)
+  | some 0 => (st, false)
+  | some (k + 1) => ({ st with budget := some k }, true)
+
+def doWriteTrial (st : St) (id : Nat) : St :=
+  let (st, ok) := spend st
+  if ok then
+    { st with disk := writeTrial st.disk st.o id,
+              fileSide := assocSet st.fileSide id (getObs st id, getScore st id) }
+  else st
+
+def doWriteOracle (st : St) : St :=
+  let (st, ok) := spend st
+  if ok then { st with disk := writeOracle st.disk st.o } else st
+
+def rankOf (st : St) (n : Nat) : List Nat :=
+  -- `get_best_trials`: scores as exact rationals, ranked through `Ranking.bestTrials`
+  let ts : List Ranking.T := (List.range st.o.trials.length).map (fun i =>
+    match st.o.trials[i]?, getScore st i with
+    | some t, some (.val q) => ⟨i, t.status == .completed, q⟩
+    | some t, _ => ⟨i, t.status == .completed, .fin 0⟩
+    | none, _ => ⟨i, false, .fin 0⟩)
+  (Ranking.bestTrials (!st.minimize) ts n).map (·.id)
+
+def handle (st : Option St) (j : Json) : Option St × String :=
     match j.getObjValAs? String "op", st with
     | .ok "init", _ =>
       let mt := (j.getObjValAs? Nat "max_trials").toOption
@@ -68,7 +116,8 @@ def handle (st : Option St) (line : String) : Option St × String :=
       let mc := (j.getObjValAs? Nat "max_consec").toOption.getD 3
       let mn := (j.getObjValAs? Bool "minimize").toOption.getD true
       let w := (j.getObjValAs? Nat "width").toOption.getD 1
-      (some { o := Core.init (V := V) none mt mr mc, minimize := mn, obs := [], tuners := [], width := w }, "ok")
+      (some { o := Core.init (V := V) none mt mr mc, minimize := mn, side := ⟨[], []⟩,
+              disk := ⟨fun _ => none, none⟩, fileSide := [], budget := none, tuners := [], width := w }, "ok")
     | .ok "create", some st =>
       let name := (j.getObjValAs? String "tuner").toOption.getD "?"
       let (st, tid) := tunerId st name
@@ -80,39 +129,70 @@ def handle (st : Option St) (line : String) : Option St × String :=
           | some "IDLE" => .idle
           | _ => .stop
         | none => .stop
-      let r := create (alg st.minimize) { st.o with alg := some pop } tid 0
+      let n0 := st.o.trials.length
+      let rq0 := st.o.retryQ.length
+      let r := create alg { st.o with alg := some pop } tid 0
+      let st := { st with o := r.1 }
+      -- file writes of `create_trial`: new trial ⇒ trial file then oracle file; retry ⇒ oracle file only
+      let st := if r.1.trials.length > n0 then doWriteOracle (doWriteTrial st n0)
+                else if r.1.retryQ.length < rq0 then doWriteOracle st else st
       let out := match r.2 with
         | .trial id v => s!"RUNNING {pad st.width id} {v}"
         | .idle => "IDLE"
         | .stopped => "STOPPED"
         | _ => "BAD"
-      let st := { st with o := r.1 }
       (some st, out ++ " | " ++ stateStr st)
     | .ok "update", some st =>
       let id := (j.getObjValAs? Nat "id").toOption.getD 0
       let step := (j.getObjValAs? Int "step").toOption.getD 0
       let v := fvOfJson ((j.getObjVal? "value").toOption.getD Json.null)
-      let st := setObs st id (Metrics.update (getObs st id) step v)
-      (some st, "ok")
+      match st.o.trials[id]? with
+      | none => (some st, "BAD")
+      | some _ =>
+        let st := setObs st id (Metrics.update (getObs st id) step v)
+        (some (doWriteTrial st id), "ok")
     | .ok "end", some st =>
       let id := (j.getObjValAs? Nat "id").toOption.getD 0
       let oc : Outcome := match (j.getObjValAs? String "status").toOption with
         | some "COMPLETED" => .completed | some "FAILED" => .failed | _ => .invalid
-      -- score_trial: best value of the objective; NaN ⇒ none
+      -- score_trial: best value of the objective over the per-step means; NaN ⇒ none
       let best := Metrics.bestValue st.minimize (getObs st id)
-      let sc : Option Int := match best with | some (.fin _) => some 0 | _ => none
-      let a : Alg V A := { alg st.minimize with scoreOf := fun _ => sc }
+      let sc : Option Int := match best with | some (.val _) => some 0 | _ => none
+      let a : Alg V A := { alg with scoreOf := fun _ => sc }
       let r := endT a st.o id oc
-      let st' := { st with o := r.1 }
-      -- repaired code: metrics are dropped when the trial is queued for retry
-      let st' := if r.1.retryQ.contains id && !(st.o.retryQ.contains id) then setObs st' id [] else st'
-      let out := match r.2 with
-        | .ok => "ok" | .abort => "ABORT" | _ => "BAD"
-      let scoreStr := match best, oc with
-        | some (.fin q), .completed => ratStr q
-        | some .nan, .completed => "nan"
-        | _, _ => "-"
-      (some st', out ++ " score=" ++ scoreStr ++ " | " ++ stateStr st')
+      match r.2 with
+      | .abort => (some { st with o := r.1 }, "ABORT")
+      | .ok =>
+        let st' := { st with o := r.1 }
+        let st' := if oc == .completed then
+            { st' with side := { st'.side with score := assocSet st'.side.score id (best.getD .nan) } } else st'
+        -- metrics are dropped when the trial is queued for retry
+        let st' := if r.1.retryQ.contains id && !(st.o.retryQ.contains id) then setObs st' id [] else st'
+        let st' := doWriteOracle (doWriteTrial st' id)
+        let scoreStr := match best, oc with
+          | some v, .completed => fvStr v
+          | _, _ => "-"
+        (some st', "ok score=" ++ scoreStr ++ " | " ++ stateStr st')
+      | _ => (some st, "BAD")
+    | .ok "budget", some st =>
+      (some { st with budget := (j.getObjValAs? Nat "k").toOption }, "ok")
+    | .ok "save", some st =>
+      (some (doWriteOracle st), "ok")
+    | .ok "reload", some st =>
+      match reload st.o st.disk with
+      | none => (some st, "reload-error")
+      | some o' =>
+        let side : Side :=
+          { obs := (List.range o'.trials.length).map (fun i => (i, ((assocGet st.fileSide i).map (·.1)).getD []))
+            score := (List.range o'.trials.length).filterMap (fun i =>
+              match assocGet st.fileSide i with | some (_, some v) => some (i, v) | _ => none) }
+        let st' := { st with o := o', side := side, budget := none }
+        (some st', "reloaded | " ++ stateStr st')
+    | .ok "remaining", some st =>
+      (some st, match st.o.maxTrials with | some m => s!"remaining {m - st.o.trials.length}" | none => "remaining none")
+    | .ok "best", some st =>
+      let n := (j.getObjValAs? Nat "n").toOption.getD 1
+      (some st, "best " ++ String.intercalate "," ((rankOf st n).map (pad st.width)))
     | _, _ => (st, "bad-op")
 
 end Driver
